@@ -49,6 +49,8 @@ pub enum Op {
     ForEach(Option<Box<Op>>),
     /// two-stage composition: outer(inner(puppet))
     Comp(Box<Op>, Box<Op>),
+    /// a named network of several operators over several puppets (see worlds::build_net)
+    Net(&'static str),
 }
 
 impl Op {
@@ -69,12 +71,14 @@ impl Op {
             Op::ForEach(None) => "for_each".into(),
             Op::ForEach(Some(o)) => format!("for_each.{}", o.family()),
             Op::Comp(a, b) => format!("{}.{}", a.family(), b.family()),
+            Op::Net(n) => format!("net:{n}"),
         }
     }
     pub fn arity(&self) -> usize {
         match self {
             Op::Merge(n) | Op::Concat(n) | Op::Combine(n) => *n,
             Op::FromIter(_) | Op::FromIterUnbounded | Op::Interval(_) => 0,
+            Op::Net(_) => 2,
             _ => 1,
         }
     }
